@@ -176,3 +176,66 @@ Proof. intros Hq. cbv zeta. cbn [cstep fst].
   destruct (cstep s0 o) as [s1 out] eqn:E. cbn [fst snd] in *.
   specialize (IH Hqr s1 Hi1 ltac:(congruence)). destruct (crun s1 r) as [s2 outs]. cbn [snd] in *.
   constructor; [|exact IH]. destruct out; try exact I. rewrite <- Hm. apply Hs1. reflexivity. Qed.
+
+(* ---------------- (E) the CIA cache ---------------- *)
+Lemma cia_find_app_none d o p : cia_find d p = None -> cia_find (d ++ [o]) p = cia_find [o] p.
+Proof. unfold cia_find. induction d as [|x d IH]; [reflexivity|]. cbn [find app].
+  destruct (Nat.eqb (co_pair x) p); [discriminate|exact IH]. Qed.
+
+Lemma cia_find_app_some d o p ob : cia_find d p = Some ob -> cia_find (d ++ [o]) p = Some ob.
+Proof. unfold cia_find. induction d as [|x d IH]; [discriminate|]. cbn [find app].
+  destruct (Nat.eqb (co_pair x) p); [intros H; exact H|exact IH]. Qed.
+
+Lemma cia_find_app_other d o p : co_pair o <> p -> cia_find (d ++ [o]) p = cia_find d p.
+Proof. intros Hne. unfold cia_find. induction d as [|x d IH]; cbn [find app].
+  - destruct (Nat.eqb_spec (co_pair o) p); [congruence|reflexivity].
+  - destruct (Nat.eqb (co_pair x) p); [reflexivity|exact IH]. Qed.
+
+(* a pair that has been served is served again as the same object, and the cache does not change: loaded once *)
+Theorem cia_served_again_is_same_object (s s1 : cia_state) (p : nat) (o : cia_obj) :
+  cia_step s (CGet p) = (s1, CServed o) -> cia_step s1 (CGet p) = (s1, CServed o).
+Proof. cbn [cia_step]. destruct (cia_find (ci_dict s) p) as [ob|] eqn:E.
+  - intros H. inversion H; subst. cbn [cia_step]. rewrite E. reflexivity.
+  - destruct (cia_files_of (ci_files s) p) as [|f fs]; [discriminate|].
+    intros H. inversion H; subst. clear H. cbn [cia_step]. unfold cia_construct at 1. cbn [ci_dict].
+    rewrite (cia_find_app_none _ _ _ E). unfold cia_find. cbn [find co_pair]. rewrite Nat.eqb_refl. reflexivity. Qed.
+
+(* a miss leaves the cache as it was *)
+Theorem cia_not_found_changes_nothing (s s1 : cia_state) (p : nat) :
+  cia_step s (CGet p) = (s1, CNotFound) -> s1 = s.
+Proof. cbn [cia_step]. destruct (cia_find (ci_dict s) p); [discriminate|].
+  destruct (cia_files_of (ci_files s) p); [|discriminate]. intros H. inversion H. reflexivity. Qed.
+
+(* no operation ever changes which object an already-served pair is served as: nothing is loaded twice,
+   nothing replaces a cached object *)
+Theorem cia_served_forever (s : cia_state) (p : nat) (ob : cia_obj) (o : cia_op) :
+  cia_find (ci_dict s) p = Some ob -> cia_find (ci_dict (fst (cia_step s o))) p = Some ob.
+Proof. intros H. destruct o as [q|fs|q file]; cbn [cia_step].
+  - destruct (cia_find (ci_dict s) q); [exact H|].
+    destruct (cia_files_of (ci_files s) q); [exact H|]. cbn [fst cia_construct ci_dict].
+    apply cia_find_app_some. exact H.
+  - exact H.
+  - destruct (cia_find (ci_dict s) q); [exact H|]. cbn [fst cia_construct ci_dict]. apply cia_find_app_some. exact H. Qed.
+
+(* a pickle (.db) file of the pair is preferred over a HITRAN (.cia) file *)
+Theorem cia_db_priority (s s1 : cia_state) (p : nat) (ob : cia_obj) (f : cia_file) :
+  cia_find (ci_dict s) p = None -> In f (ci_files s) -> cf_pair f = p -> cf_hitran f = false ->
+  cia_step s (CGet p) = (s1, CServed ob) ->
+  exists g, In g (ci_files s) /\ cf_pair g = p /\ cf_hitran g = false /\ co_file ob = cf_id g.
+Proof. intros Hn Hin Hp Hh. cbn [cia_step]. rewrite Hn. unfold cia_files_of.
+  destruct (filter (fun f0 => Nat.eqb (cf_pair f0) p && negb (cf_hitran f0)) (ci_files s)) as [|g gs] eqn:Ef.
+  - exfalso. assert (Hf : In f (filter (fun f0 => Nat.eqb (cf_pair f0) p && negb (cf_hitran f0)) (ci_files s))).
+    { apply filter_In. split; [exact Hin|]. rewrite Hp, Nat.eqb_refl, Hh. reflexivity. }
+    rewrite Ef in Hf. destruct Hf.
+  - cbn [app]. intros H. inversion H; subst. exists g.
+    assert (Hg : In g (filter (fun f0 => Nat.eqb (cf_pair f0) (cf_pair f) && negb (cf_hitran f0)) (ci_files s))) by (rewrite Ef; left; reflexivity).
+    apply filter_In in Hg. destruct Hg as [Hg1 Hg2]. apply andb_true_iff in Hg2. destruct Hg2 as [Hg2 Hg3].
+    apply Nat.eqb_eq in Hg2. apply negb_true_iff in Hg3. repeat split; assumption. Qed.
+
+(* an object added for a pair not yet cached is the one served from then on *)
+Theorem cia_added_is_served (s : cia_state) (p file : nat) : cia_find (ci_dict s) p = None ->
+  exists o, cia_step (fst (cia_step s (CAdd p file))) (CGet p) = (fst (cia_step s (CAdd p file)), CServed o)
+            /\ co_file o = file /\ co_pair o = p.
+Proof. intros Hn. cbn [cia_step]. rewrite Hn. cbn [fst cia_step]. unfold cia_construct at 1 3. cbn [ci_dict].
+  rewrite (cia_find_app_none _ _ _ Hn). unfold cia_find at 1. cbn [find co_pair]. rewrite Nat.eqb_refl.
+  eexists. split; [reflexivity|]. split; reflexivity. Qed.
